@@ -33,11 +33,11 @@ type handle struct {
 }
 
 func Run(k *report.Check) {
-	k.Rule = "every history up to the depth over {put, delete, Checkpoint+wait, keep-only-newest / keep-two-newest retention update, restore from a retained handle into the same directory (as a redeployed operator does) or a new one and continue, hold / release+quiesce background work} under tiny option sets; the storage layer snapshots the file set after every mutating operation. For every retained handle and every such snapshot taken after the handle was returned (crash = abandon the process there) a fresh dkv.Open on a copy of the snapshot must not panic, must show exactly the map captured at the Checkpoint call (full scan, prefix scans, point gets) and must accept new writes (enough to rotate and flush) and read them back. non-trivial = distinct (file set, handle) probes taken after at least one later write, flush, compaction, checkpoint, retention update or restore"
+	k.Rule = "every history up to the depth over {put, delete, Checkpoint+wait, keep-only-newest / keep-two-newest retention update, restore from a retained handle into the same directory (as a redeployed operator does) or a new one and continue, hold / release+quiesce background work} under tiny option sets; the storage layer snapshots the file set after every mutating operation. For every retained handle and every such snapshot taken after the handle was returned (crash = abandon the process there) a fresh dkv.Open on a copy of the snapshot must not panic, must show exactly the map captured at the Checkpoint call (full scan, prefix scans, point gets) and must accept new writes (enough to rotate and flush) and read them back; every history ends with a quiescent final checkpoint that is probed the same way. non-trivial = distinct (file set, handle) probes taken after at least one later write, flush, compaction, checkpoint, retention update or restore"
 	k.Assumptions = []string{"a crash loses nothing that a storage operation had completed (MemoryFilesystem has no torn writes)", "garbage collection is switched off during an execution: cleanup-driven deletion is C09's subject", "background work is quiescent or held in this tier"}
 	k.Budget(150, 1500)
 	cfgs := []dkvh.Options{{Mem: 30, Table: 40, L0: 2, Smallest: 4500, Ampl: 50}, {Mem: 50, Table: 80, L0: 1, Smallest: 4500, Ampl: 50},
-		{Mem: 30, Table: 40, L0: 3, Smallest: 4500, Ampl: 50}, {Mem: 30, Table: 1, L0: 1, Smallest: 9000, Ampl: 200}}
+		{Mem: 30, Table: 1, L0: 1, Smallest: 9000, Ampl: 200}}
 	if k.Thorough() {
 		cfgs = dkvh.Configs(false)
 	}
@@ -71,7 +71,12 @@ func body(c *mc.Ctx) {
 	ref := dkvh.Ref{}
 	var retained []handle
 	nextID := uint64(1)
-	held := false
+	// background work may be held back from the start (does not count towards the depth)
+	held := c.Choose(2) == 1
+	if held {
+		c.Op("hold")
+		root.Hold(true)
+	}
 	restores := 0
 	later := false // something happened after the oldest retained handle was returned
 
@@ -279,6 +284,15 @@ func body(c *mc.Ctx) {
 	dkvh.CheckReads(c, "live after final sync", db, ref, keys, prefixes)
 	for _, h := range retained {
 		probe(root.Snapshot(), h, "at the end")
+	}
+	// one more checkpoint from wherever the history ended (quiescent): it must restore too
+	if c.Fresh() {
+		c.Op("Checkpoint(%d) at the end", nextID)
+		h, err := db.Checkpoint(nextID)()
+		if err != nil {
+			c.Failf("final Checkpoint(%d) failed: %v", nextID, err)
+		}
+		probe(root.Snapshot(), handle{id: nextID, h: h, ref: ref.Clone(), dir: dir}, "after the final checkpoint")
 	}
 	if len(retained) > 0 {
 		c.Note("executions_with_a_retained_checkpoint")
